@@ -102,14 +102,22 @@ def make_node(rng, in_shape, allow=None):
         elif r < 0.24:
             pad = "same"; ss = [1] * nd
         out_sp = list(sp) if isinstance(pad, str) and pad == "same" else [positions(n, p, d, k, s) for n, p, d, k, s in zip(sp, ps, ds, ks, ss)]
-        w = _arr(rng, [co, in_shape[0]] + ks)
+        # grouped / depthwise convolutions: weight has C_in/groups input channels.  (With an explicit input_shape the
+        # constructor declares [C_in/groups, ...] as input type, which inference then overwrites with the
+        # predecessor's [C_in, ...]; such nodes are marked "gconv" and are always generated ERASED.)
+        g = 1
+        if in_shape[0] > 1 and rng.random() < 0.2:
+            g = rng.choice([d for d in range(2, in_shape[0] + 1) if in_shape[0] % d == 0])
+            co = g * rng.randint(1, 2)
+        w = _arr(rng, [co, in_shape[0] // g] + ks)
+        tag = "conv" if g == 1 else "gconv"
         if nd == 1:
             args = {"input_shape": int(sp[0]), "weight": w, "stride": hp_form(rng, ss), "padding": pad,
-                    "dilation": hp_form(rng, ds), "groups": 1, "bias": _arr(rng, [co])}
-            return {"k": "Conv1d", "args": args}, [co] + out_sp, "conv"
+                    "dilation": hp_form(rng, ds), "groups": g, "bias": _arr(rng, [co])}
+            return {"k": "Conv1d", "args": args}, [co] + out_sp, tag
         args = {"input_shape": tuple(int(x) for x in sp), "weight": w, "stride": hp_form(rng, ss),
-                "padding": pad, "dilation": hp_form(rng, ds), "groups": 1, "bias": _arr(rng, [co])}
-        return {"k": "Conv2d", "args": args}, [co] + out_sp, "conv"
+                "padding": pad, "dilation": hp_form(rng, ds), "groups": g, "bias": _arr(rng, [co])}
+        return {"k": "Conv2d", "args": args}, [co] + out_sp, tag
     # pooling (2-d)
     sp = in_shape[1:]
     ks, ss, ps = [], [], []
@@ -201,11 +209,12 @@ def erase(rng, cg, subset=None, wrong_outputs=True):
     names = sorted(cg["erasable"])
     if subset is None:
         subset = [n for n in names if rng.random() < 0.6]
+    subset = sorted(set(subset) | {n for n in names if cg["erasable"][n] == "gconv"})   # grouped convs: always erased
     done = []
     for n in subset:
         kind = cg["erasable"][n]
         a = r["nodes"][n]["args"]
-        if kind == "conv":
+        if kind in ("conv", "gconv"):
             a["input_shape"] = None
             done.append((n, "none"))
         elif kind == "flatten":
